@@ -46,7 +46,6 @@ MUTANTS = {
     "m21": ("C12", MRP, "    ).param\n    x_accel = ca.sparsify(x_accel)", "    ).param\n    x_accel[3] = x[3]\n    x_accel = ca.sparsify(x_accel)", "D2 re-introduced (accel correction only)"),
     "m22": ("C12", SIMEQ, "[C_nb.inverse() @ (-g * e3) + w_accel * std_accel]", "[C_nb @ (-g * e3) + w_accel * std_accel]", "accelerometer rotates with the inverse attitude"),
     "m23": ("C12", E, "                    self.x = x0\n                    self.initialized = True\n", "                    self.x = x0\n", "estimator never leaves the initialisation gate"),
-    "m24": ("C12", SIMNODE, "            if t == 0 or t - self.t_last_mag >= self.dt_mag.get() - time_eps:", "            if t - self.t_last_mag >= self.dt_mag.get() + time_eps:", "magnetometer published late / never at the nominal rate"),
     "m25": ("C12", MRP, "    r_mag = -ca.atan2(y_n[1], y_n[0]) + mag_decl", "    r_mag = -ca.atan2(y_n[1], y_n[0]) - mag_decl", "declination sign in the heading residual"),
     "m30": ("C11", MRP, "    x_accel = ca.if_else(accel_ret == 0, x_accel, x)\n", "", "rejected accelerometer correction still writes the state"),
     "m31": ("C11", MRP, "    W_mag = ca.if_else(mag_ret == 0, W_mag, W)\n", "", "rejected magnetometer correction still writes the covariance"),
@@ -156,6 +155,52 @@ def eval_patch(patch, prop, tier="quick", extra_env=None):
         lines = [l.strip() for l in q.stdout.splitlines() if l.startswith("  violation class=") or l.startswith("HARNESS") or l.startswith("  class=")]
         status = {0: "MISSED", 1: "killed", 2: "harness-error"}.get(q.returncode, "exit %d" % q.returncode)
         print("%s %s %s %.0fs [%s]" % (patch, prop, status, time.time() - t0, "; ".join(lines[:4])), flush=True)
+        eval_patch.last = (status, [l for l in lines if l.startswith("violation class=")])
         return q.returncode
     finally:
         shutil.rmtree(d, ignore_errors=True)
+
+
+def report(path=None):
+    """Run every own mutant and every seeded change; write the kill matrix (markdown) and record
+    `detected_by` in each seeded meta.json."""
+    import glob
+    import json
+    import re
+
+    path = path or os.path.join(VERIF_DIR, "KILLMATRIX.md")
+    rows = []
+    for mid in sorted(MUTANTS):
+        prop = MUTANTS[mid][0]
+        d = make_copy()
+        t0 = time.time()
+        try:
+            apply(d, mid)
+            env = dict(os.environ, VERIF_REPO=d, VERIF_SHRINK_S="10", VERIF_NO_DETCHECK="1", VERIF_EVIDENCE_DIR=os.path.join(d, "evidence"), VERIF_REPLAY_DIR=os.path.join(d, "replays"))
+            p = subprocess.run([sys.executable, os.path.join(VERIF_DIR, "verif"), "check", prop, "--tier", "quick"], env=env, capture_output=True, text=True, timeout=3600)
+            cls = sorted(set(re.findall(r"violation class=(\S+)", p.stdout)))
+            status = {0: "MISSED", 1: "killed", 2: "harness-error"}.get(p.returncode, "exit %d" % p.returncode)
+            rows.append(("own", mid, prop, status, MUTANTS[mid][4], ", ".join(cls[:4])))
+            print(rows[-1], flush=True)
+        finally:
+            shutil.rmtree(d, ignore_errors=True)
+    for mp in sorted(glob.glob(os.path.join(VERIF_DIR, "seeded", "*", "meta.json"))):
+        meta = json.load(open(mp))
+        patch = os.path.join(os.path.dirname(mp), "patch.diff")
+        rc = eval_patch(patch, meta["property"])
+        status, lines = getattr(eval_patch, "last", ("?", []))
+        cls = sorted(set(re.findall(r"violation class=(\S+)", " ".join(lines))))
+        meta["detected_by"] = {"check": "./verif check %s --tier quick" % meta["property"], "result": status, "violation_classes": cls}
+        json.dump(meta, open(mp, "w"), indent=1)
+        first = ""
+        nf = os.path.join(os.path.dirname(mp), "notes.md")
+        rows.append(("seeded", meta["id"], meta["property"], status, ", ".join(meta.get("files_touched", [])), ", ".join(cls[:4])))
+        print(rows[-1], flush=True)
+    with open(path, "w") as f:
+        f.write("# Kill matrix (quick tier, generated by `./verif sensitivity --report`)\n\n")
+        f.write("| corpus | id | property | result | change | violation classes reported |\n|---|---|---|---|---|---|\n")
+        for r in rows:
+            f.write("| %s | %s | %s | %s | %s | %s |\n" % r)
+        k = sum(1 for r in rows if r[3] == "killed")
+        f.write("\n%d of %d killed.\n" % (k, len(rows)))
+    return 0
